@@ -2,6 +2,7 @@ package main
 
 import (
 	"fmt"
+	"go/token"
 	"go/types"
 	"sort"
 	"strings"
@@ -808,6 +809,44 @@ func (c *Ctx) ruleListenerCannotFault(rule string) {
 						}
 					} else {
 						ok = false
+					}
+				}
+			}
+			if !ok && !isSlice {
+				// an index that is the result of a call (a token type, a position the runtime reports) is
+				// whatever the callee says, possibly negative: it needs a test on both sides
+				if ext, isExt := x.Origin(lo).(*ssa.Call); isExt {
+					if _, isBuiltin := ext.Call.Value.(*ssa.Builtin); !isBuiltin {
+						lower, upper := false, false
+						for _, g := range x.GuardsOf(in.Block()) {
+							bo, isB := g.Cond.(*ssa.BinOp)
+							if !isB {
+								continue
+							}
+							op := bo.Op
+							if !g.Pol {
+								op = map[token.Token]token.Token{token.LSS: token.GEQ, token.GEQ: token.LSS, token.GTR: token.LEQ, token.LEQ: token.GTR, token.EQL: token.NEQ, token.NEQ: token.EQL}[op]
+							}
+							isIdx := func(v ssa.Value) bool { return x.sameValue(v, lo) }
+							isLen := func(v ssa.Value) bool { return x.symInt(v).equal(lenS) }
+							kOf := func(v ssa.Value) (int64, bool) { return constInt(v) }
+							switch {
+							case isIdx(bo.X) && isLen(bo.Y) && op == token.LSS, isLen(bo.X) && isIdx(bo.Y) && op == token.GTR:
+								upper = true
+							}
+							if isIdx(bo.X) {
+								if k, isK := kOf(bo.Y); isK && ((op == token.GEQ && k >= 0) || (op == token.GTR && k >= -1)) {
+									lower = true
+								}
+							}
+							if isIdx(bo.Y) {
+								if k, isK := kOf(bo.X); isK && ((op == token.LEQ && k >= 0) || (op == token.LSS && k >= -1)) {
+									lower = true
+								}
+							}
+						}
+						c.Check(rule, key, lower && upper, in.Pos(), "the index %s into %s is the result of a call: the dominating tests must keep it at or above zero (%v) and below the length (%v)", x.Describe(lo), x.Describe(coll), lower, upper)
+						return
 					}
 				}
 			}
